@@ -236,6 +236,23 @@ def check_case(case):
                     o = {"kind": "two-of-exactly-one" if case["required"] else "two-of-at-most-one", "a": usable[i], "b": usable[j], "cls": name, "group": g}
                     for k, d in c04.check_case({"ob": o, "route": "constructor"}):
                         out.append((f"group-not-in-force/{'currency-origcurrency' if set(g) == {'currency', 'origcurrency'} else 'other'}", f"{name}: {d}"))
+                    # ... and in an instance that also carries list members (one of every permitted kind that the group
+                    # itself does not exclude)
+                    mts = M.member_types(cls)
+                    if mts and not out:
+                        for pick in sorted(mts):
+                            if pick in g:
+                                continue
+                            try:
+                                base = M.minimal(cls, with_member=mts[pick].__name__)
+                                M.build(base)
+                            except Exception:
+                                continue
+                            for k, d in c04.check_case({"ob": o, "base": base}):
+                                if k.startswith("violation-accepted"):
+                                    out.append(("group-not-in-force/with-list-members", f"{name} (with a {mts[pick].__name__} member): {d}"))
+                            if out:
+                                break
             if case["required"]:
                 o = {"kind": "none-of-exactly-one", "group": g, "cls": name}
                 for k, d in c04.check_case({"ob": o, "route": "constructor"}):
